@@ -253,7 +253,8 @@ pub struct Case {
     pub client_id: String,
     pub clean: bool,
     /// 0 absent, 1 wrong user, 2 wrong password, 3 right, 4 unknown user with an empty
-    /// password, 5 known user with an empty password
+    /// password, 5 known user with an empty password, 6 the credentials of the static table
+    /// that configuration 3 combines with a callback which refuses them
     pub login: u8,
     pub sc: Scenario,
 }
@@ -266,7 +267,10 @@ fn connect_bytes(v5: bool, keep_alive: u16, id: &str, clean: bool, login: u8) ->
         3 => Some(("u", "p")),
         // user name present, password empty (on the wire: password flag clear)
         4 => Some(("nobody", "")),
-        _ => Some(("u", "")),
+        5 => Some(("u", "")),
+        // what the static table of configuration 3 holds (its callback refuses it: with both
+        // configured the callback decides)
+        _ => Some(("x", "y")),
     };
     let mut b = BytesMut::new();
     if v5 {
@@ -315,7 +319,7 @@ pub fn cases(thorough: bool) -> Vec<Case> {
                 for ka in [0u16, 10] {
                     for id in ids.iter() {
                         for clean in [true, false] {
-                            for login in 0..6u8 {
+                            for login in 0..7u8 {
                                 if !thorough && auth == 0 && login != 0 && login != 3 {
                                     continue;
                                 }
